@@ -905,7 +905,7 @@ unary_fns: dict[str, UnaryCallable] = {
 def binary_e_fn(
     x: Union[int, float], y: Union[int, float]
 ) -> Union[int, float]:
-    if isinstance(x, int) and isinstance(y, int):
+    if isinstance(x, int) and isinstance(y, int) and abs(y) <= 1000:
         if y >= 0:
             for i in range(y):
                 x = x * 10
